@@ -283,6 +283,10 @@ func C11(rep *ev.Reporter, tier string) {
 	calls += nm
 	nontrivial += ntm
 	rep.Coverage["calls_between_caller_mutations"] = nm
+	// fact TYPES: three struct types printed alike with permuted / promoted fields, every sequence of reads up to depth 3
+	_, tops := twinTypes(rep, "C11", 3, []int{2})
+	calls += tops
+	rep.Coverage["calls_on_twin_fact_types"] = tops
 	rep.Coverage["programs"] = programs
 	rep.Coverage["evaluations"] = calls
 	rep.Coverage["states"] = states
